@@ -401,12 +401,100 @@ def run_nostd(cfg, cases, seed=1, limit=300, priority=()):
     return dict(cfg=cfg, items=len(sel), errors=len(errs)), problems
 
 
+CRATEOPT_SRC = r'''#![allow(warnings)]
+use std::marker::PhantomData;
+pub mod reexp { pub use ::derive_where; ZREEXP }
+use ::derive_where as dwalias;
+ZALIAS
+pub struct NoTraits;
+pub mod a { use super::*; use ::derive_where::derive_where;
+    #[derive_where(crate = crate::reexp::derive_where)] #[derive_where(Clone, Debug, PartialEq; T)] pub struct S<T, U>(pub T, pub PhantomData<U>); }
+pub mod b { use super::*; use ::derive_where::derive_where;
+    #[derive_where(crate = dwalias)] #[derive_where(Clone, Debug, PartialEq; T)] pub enum S<T, U> { A(T), B { x: PhantomData<U> } } }
+pub mod c { use std::marker::PhantomData; pub mod inner { pub use ::derive_where; } use ::derive_where::derive_where;
+    #[derive_where(crate = self::inner::derive_where)] #[derive_where(Clone, Debug, PartialEq; T)] pub struct S<T, U>(pub T, pub PhantomData<U>); }
+pub mod d { use std::marker::PhantomData; use ::derive_where::derive_where;
+    #[derive_where(crate = super::reexp::derive_where)] #[derive_where(Clone, Debug, PartialEq; T)] pub struct S<T, U>(pub T, pub PhantomData<U>); }
+pub mod e { use std::marker::PhantomData; use ::derive_where::derive_where;
+    #[derive_where(crate = "crate::reexp::derive_where")] #[derive_where(Clone, Debug, PartialEq; T)] pub struct S<T, U>(pub T, pub PhantomData<U>); }
+ZMODS
+fn main() {
+    let x = a::S::<u8, NoTraits>(3, PhantomData); assert!(x.clone() == x); assert_eq!(format!("{:?}", x), "S(3, PhantomData<crateopt::NoTraits>)");
+    let y = b::S::<u8, NoTraits>::A(4); assert!(y.clone() == y && y != b::S::B { x: PhantomData });
+    let z = c::S::<u8, NoTraits>(5, PhantomData); assert!(z.clone() == z);
+    let w = d::S::<u8, NoTraits>(6, PhantomData); assert!(w.clone() == w);
+    let v = e::S::<u8, NoTraits>(7, PhantomData); assert!(v.clone() == v);
+    ZMAIN
+    println!("CRATEOPT-OK");
+}
+'''
+CRATEOPT_Z = dict(
+    ZREEXP='pub use ::zeroize;',
+    ZALIAS='use ::zeroize as zalias;',
+    ZMODS=r'''pub mod za { use super::*; use ::derive_where::derive_where;
+    #[derive_where(Zeroize(crate = crate::reexp::zeroize); T)] pub struct S<T, U>(pub T, pub PhantomData<U>); }
+pub mod zb { use super::*; use ::derive_where::derive_where;
+    #[derive_where(Zeroize(crate = zalias), ZeroizeOnDrop(crate = zalias))] pub enum S<T: ::zeroize::Zeroize, U> { A(T), B { x: PhantomData<U> } } }
+pub mod zc { use super::*; use ::derive_where::derive_where;
+    #[derive_where(Zeroize(crate = "crate::reexp::zeroize"); T)] pub struct S<T, U> { #[derive_where(Zeroize(fqs))] pub a: T, pub b: PhantomData<U> } }
+''',
+    ZMAIN=r'''{ use ::zeroize::Zeroize; let mut s = za::S::<u8, NoTraits>(9, PhantomData); s.zeroize(); assert_eq!(s.0, 0);
+      let mut t = zc::S::<u8, NoTraits> { a: 9, b: PhantomData }; t.zeroize(); assert_eq!(t.a, 0);
+      let mut u = zb::S::<u8, NoTraits>::A(9); u.zeroize(); if let zb::S::A(v) = &u { assert_eq!(*v, 0); } }''')
+
+
+def run_crateopt(cfg):
+    """C14: a `crate = path` option is used verbatim - relative, `crate::`, `self::`, `super::` paths and aliases must work"""
+    import hashlib, gzip, pickle, shutil, tempfile, threading
+    zero = CFGS[cfg]['zeroize']
+    src = CRATEOPT_SRC
+    for k, v in CRATEOPT_Z.items():
+        src = src.replace(k, v if zero else '')
+    key = os.path.join(runner.CACHE, 'crateopt-' + hashlib.sha256((runner.repo_hash() + cfg + src).encode()).hexdigest()[:32] + '.pkl.gz')
+    res = None
+    if os.path.exists(key):
+        try:
+            with gzip.open(key, 'rb') as fh:
+                res = pickle.load(fh)
+        except Exception:
+            res = None
+    if res is None:
+        scratch = tempfile.mkdtemp(prefix='dwcrateopt-', dir=runner.SCRATCH_ROOT)
+        try:
+            os.makedirs(os.path.join(scratch, 'src'))
+            feats = CFGS[cfg]['features']
+            dep = 'derive-where = { path = "%s"%s }' % (runner.REPO, (', features = ["%s"]' % feats) if feats else '')
+            open(os.path.join(scratch, 'Cargo.toml'), 'w').write('[package]\nname = "crateopt"\nversion = "0.0.0"\nedition = "2021"\n[workspace]\n[dependencies]\n%s\n%s' % (dep, 'zeroize = "1"\n' if zero else ''))
+            shutil.copy(runner.lockfile(), os.path.join(scratch, 'Cargo.lock'))
+            open(os.path.join(scratch, 'src', 'main.rs'), 'w').write(src)
+            env = dict(os.environ)
+            env.update(CARGO_TARGET_DIR=os.path.join(scratch, 'target'), CARGO_NET_OFFLINE='true')
+            cmd = ['cargo'] + (['+nightly'] if cfg == 'nightly' else []) + ['run', '--offline', '-q']
+            p = subprocess.run(cmd, cwd=scratch, env=env, stdout=subprocess.PIPE, stderr=subprocess.PIPE, text=True, timeout=3000)
+            res = (p.returncode, p.stdout[-500:], '\n'.join(l for l in p.stderr.split('\n') if l.startswith('error'))[:1500] or p.stderr[-800:])
+        finally:
+            shutil.rmtree(scratch, ignore_errors=True)
+        os.makedirs(runner.CACHE, exist_ok=True)
+        tmp = key + '.tmp%d.%d' % (os.getpid(), threading.get_ident())
+        with gzip.open(tmp, 'wb') as fh:
+            pickle.dump(res, fh)
+        os.replace(tmp, key)
+    rc, out, err = res
+    problems = []
+    if rc != 0 or 'CRATEOPT-OK' not in out:
+        problems.append(dict(kind='compile', scope='crate-option', cfg=cfg, case='crateopt', src='items with `crate = <relative path | crate:: | self:: | super:: | alias | "string">` options (harness/tieb.py CRATEOPT_SRC)',
+                             errors=[l[:300] for l in err.split('\n')[:4]]))
+    return dict(cfg=cfg, items=5 + (3 if zero else 0), ok=not problems), problems
+
+
 if __name__ == '__main__':
     cfg = sys.argv[1] if len(sys.argv) > 1 else 'default'
     only = sys.argv[2] if len(sys.argv) > 2 else None
     limit = int(sys.argv[3]) if len(sys.argv) > 3 else 200
     cases = corpus.quick_corpus(1)
-    if os.environ.get('NOSTD') == '1':
+    if os.environ.get('CRATEOPT') == '1':
+        st, pr = run_crateopt(cfg)
+    elif os.environ.get('NOSTD') == '1':
         st, pr = run_nostd(cfg, cases, 1, limit)
     else:
         st, pr = run(cfg, cases, 1, limit, only, keep_src='/tmp/probe_main.rs', hostile=os.environ.get('HOSTILE') == '1', miri=os.environ.get('DW_MIRI') == '1')
